@@ -1,8 +1,8 @@
 CONSTANTS
   Readers = {r1, r2, r3}
   Writers = {w1, w2}
-  MaxWrites = 4
-  MaxReads = 2
+  MaxWrites = 3
+  MaxReads = 1
   Perpetual = FALSE
   MutNoBarrier = FALSE
   MutOnlyOldSlot = FALSE
@@ -10,3 +10,4 @@ CONSTANTS
   MutLoadFirst = FALSE
 SPECIFICATION Spec
 INVARIANTS Safe CurrentAlive NoLeak LockBalanced MutexOwned ReadWaitFree TypeOK
+SYMMETRY Perms
